@@ -236,3 +236,90 @@ theorem hab_roundtrip_partial (c : Cfg) (b : Built) (h : c.WF)
   hab_roundtrip_lemma c b h hd hx happ hc hvis
 
 end SpsdkVerif.C07
+
+/-! ## 9. non-vacuity, sanity checks and refutations of the full-strength statements -/
+namespace SpsdkVerif.C07
+open SpsdkVerif SpsdkVerif.Hab SpsdkVerif.Misc SpsdkVerif.Generated
+
+/-- 16-byte application: stack pointer, reset vector `rv`, two more words -/
+def exApp (rv : Nat) : Misc.Bytes := le32 0x20001000 ++ le32 rv ++ le32 0xDEADBEEF ++ le32 0x12345678
+
+/-- a plain container (serial-downloader like layout: IVT offset 0, application at 0x100) -/
+def exPlain (rv : Nat) : Cfg :=
+  { flags := 0, start := 0x20200000, ivtOff := 0, ils := 0x100, entry := 0x20200109, dcd := none, xmcd := none,
+    app := exApp rv, version := 0x40, cmds := [], dek := [], nonce := [], macLen := 16 }
+
+def exBuilt (c : Cfg) : Built := { app := c.appBin, cmds := [], msgData := [], msgCsf := [], attempts := 0 }
+
+theorem exPlain_wf (rv : Nat) : (exPlain rv).WF :=
+  { flags := Or.inl rfl, csf := rfl, ivtLe := by show 0 ≤ 0x100; decide, ils16 := by show 0x100 % 16 = 0; decide,
+    appOffKnown := by show 0x100 - 0 ∈ HabConsts.knownAppOffsets; decide,
+    notBoth := Or.inl rfl, dcdFits := fun d h => (by cases h), xmcdFits := fun x h => (by cases h),
+    addr := by
+      have : (exPlain rv).app.length = 16 := by simp [exPlain, exApp]
+      rw [this]
+      show 0x20200000 + csfAbs (0x100 + 16) + 0x2000 + 0x200 < 2 ^ 32
+      decide,
+    entry := by show 0x20200109 < 2 ^ 32; decide, nonzero := by show 0 < 0x20200000 + 0; decide }
+
+/-- the builder model really produces this container -/
+example (cr : Crypto.CryptoOps) :
+    build cr ⟨fun _ => [], fun _ _ => []⟩ 4 (exPlain 0x20200109) = some (exBuilt (exPlain 0x20200109)) := rfl
+
+/-- the round trip theorem applies (its hypotheses are satisfiable) and its conclusion is checked by evaluation -/
+example : parse (exportImage (exPlain 0x20200109) (exBuilt (exPlain 0x20200109)))
+    = .ok (expectedParse (exPlain 0x20200109) (exBuilt (exPlain 0x20200109))) :=
+  hab_roundtrip_partial _ _ (exPlain_wf _) (fun d h => by cases h) (fun x h => by cases h) rfl
+    (fun h => by cases h) (by decide +kernel)
+
+/-- **Refutation of the unconditional round trip** (known finding C07-parse-app-offset-guess): a well-formed plain
+    container whose second application word is even — `parse` does not find the application and raises -/
+theorem roundtrip_needs_visible_app :
+    ∃ c : Cfg, c.WF ∧ parse (exportImage c (exBuilt c)) ≠ .ok (expectedParse c (exBuilt c)) :=
+  ⟨exPlain 0x20200108, exPlain_wf _, by decide +kernel⟩
+
+/-- a signer whose signature size alternates between two 4-aligned sizes -/
+def altSigner : Signer := ⟨fun _ => [], fun i _ => List.replicate (4 + 4 * (i % 2)) 0⟩
+
+/-- **Refutation of unconditional termination**: with `altSigner` the re-sign loop exhausts every fuel
+    (the Python `while updated:` loop would not return) -/
+theorem sign_loop_can_diverge (fuel i : Nat) (d : Misc.Bytes) (hd : d.length % 4 = 0)
+    (hne : d.length ≠ 8 + 4 * (i % 2)) :
+    signLoop altSigner 0x40 fuel i [⟨.autDat 0 1 0xC5 0 0 0 [], some d⟩] = none := by
+  induction fuel generalizing i d with
+  | zero => rfl
+  | succ fuel ih =>
+    have hnew : (sigBlob 0x40 (altSigner.csf i (csfBase 0x40 [⟨.autDat 0 1 0xC5 0 0 0 [], some d⟩]))).length
+        = 8 + 4 * (i % 2) := by
+      simp [sigBlob, altSigner]; omega
+    have h1 : autSize [⟨.autDat 0 1 0xC5 0 0 0 [], some d⟩] = d.length := by
+      simp [autSize, getAut, isAut]; exact alignUp_of_mod _ _ (by decide) hd
+    have h2 : autSize (resign altSigner 0x40 i [⟨.autDat 0 1 0xC5 0 0 0 [], some d⟩]) = 8 + 4 * (i % 2) := by
+      simp only [autSize, resign, mapAut, getAut, isAut, ↓reduceIte, Option.getD_some]
+      rw [hnew]; exact alignUp_of_mod _ _ (by decide) (by omega)
+    unfold signLoop
+    have h0 : (getAut 0 [(⟨.autDat 0 1 0xC5 0 0 0 [], some d⟩ : CsfCmd)]).isNone = false := by
+      simp [getAut, isAut]
+    rw [h0, h1, h2]
+    simp only [Bool.false_eq_true, ↓reduceIte]
+    rw [if_neg (by omega)]
+    simp only [resign, mapAut, isAut, ↓reduceIte]
+    apply ih
+    · rw [hnew]; omega
+    · rw [hnew]; omega
+
+/-- … while for a signer with a stable size two passes are enough (the RSA case) -/
+example : (signLoop ⟨fun _ => [], fun _ _ => List.replicate 256 7⟩ 0x40 2 0
+    [⟨.autDat 0 1 0xC5 0 0 0 [], some (sigBlob 0x40 [])⟩]).map (·.2) = some 2 := by decide +kernel
+
+/-- sanity: the CSF offset for the RT10xx flexspi_nor layout and a 4 KiB − 1 / 4 KiB application -/
+example : csfOffsetN 0x2000 4095 0x1000 = 0x2000 ∧ csfOffsetN 0x2000 4096 0x1000 = 0x3000 := by
+  constructor <;> rw [csfOffsetN_eq] <;> decide
+
+/-- sanity: an Install Key / Authenticate Data / Unlock command round trip by evaluation -/
+example : Cmd.decode ((Cmd.autDat 0 2 0xC5 0 0 0x7EC [(0x30001000, 64), (0x30002000, 4096)]).encode ++ [1, 2, 3])
+    = some (.autDat 0 2 0xC5 0 0 0x7EC [(0x30001000, 64), (0x30002000, 4096)]) := by decide
+example : Cmd.decode (Cmd.unlock 0x21 0b1001 0x0123456789ABCDEF).encode = some (.unlock 0x21 0b1001 0x0123456789ABCDEF) := by
+  decide
+
+end SpsdkVerif.C07
